@@ -58,6 +58,63 @@ def e1_diff_part(prop, tier, seed):
     }
     return cov, viols
 
+UNDERLYING = {"cloned_slice": "slice", "copied_slice": "slice", "cloned_vecref": "vecref", "cloned_iter": "ref_iter", "copied_iter": "ref_iter_unk"}
+
+def e1_pair_part(prop, tier, seed):
+    """C13, concurrent leg: the same closed systems explored on an adaptor and on its underlying reference-yielding
+    iterator; per system the complete set of outcomes (which thread received which positions, answers of the length
+    queries, remainder handed to into_seq_iter) and the violation classes must be identical."""
+    binary = build_conc("release")
+    nsh = 32
+    fam = prop + "P"
+    rundir = os.path.join(TARGET, "run")
+    emit = os.path.join(rundir, f"{prop}-e1pair.out")
+    for f in glob.glob(emit + ".*"):
+        os.remove(f)
+    agg = {"configs": 0, "executions": 0, "states": 0, "transitions": 0, "complete_executions": 0}
+    samples = []
+    shards = run_shards(binary, ["prop", "--prop", fam, "--tier", tier, "--seed", str(seed), "--cfg-max-secs", "60" if tier == "quick" else "600", "--emit-outcomes", emit], nsh, os.path.join(rundir, f"{prop}-e1pair"), 900 if tier == "quick" else 4 * 3600)
+    for s in shards:
+        if s["engine_errors"]:
+            raise MachineryError("; ".join(s["engine_errors"][:3]))
+        for k in agg:
+            agg[k] += s[k]
+        samples += s["samples"][:1]
+    table = {}
+    for f in glob.glob(emit + ".*"):
+        for line in open(f):
+            cli, oc, vc, capped = line.rstrip("\n").split("\t")
+            kind = re.search(r"--kind (\S+)", cli).group(1)
+            rest = re.sub(r"--kind \S+ ", "", cli)
+            table[(kind, rest)] = (oc, vc, capped)
+        os.remove(f)
+    viols = []
+    npairs = ndiff = ncapped = 0
+    for (kind, rest), ra in sorted(table.items()):
+        u = UNDERLYING.get(kind)
+        if u is None:
+            continue
+        rb = table.get((u, rest))
+        if rb is None:
+            raise MachineryError(f"no run of the underlying kind {u} for [{rest}]")
+        if ra[2] == "true" or rb[2] == "true":
+            ncapped += 1
+            continue
+        npairs += 1
+        if (ra[0], ra[1]) != (rb[0], rb[1]):
+            ndiff += 1
+            what = "violation classes differ" if ra[1] != rb[1] else "outcome sets differ"
+            cli = f"--kind {kind} {rest}"
+            viols.append({"prop": prop, "engine": "E1", "class": "adaptor-diff-concurrent", "kind": kind, "cli": cli, "count": 1,
+                          "msg": f"[{cli}] {what} between the adaptor (violations: {ra[1] or 'none'}; {len(ra[0].split(',')) if ra[0] else 0} outcomes) and the underlying iterator --kind {u} driven by the same plans under all interleavings (violations: {rb[1] or 'none'}; {len(rb[0].split(',')) if rb[0] else 0} outcomes)",
+                          "replay_cmd": f"{binary} one {cli}; {binary} one --kind {u} {rest}"})
+    cov = {
+        "engine_E1_adaptor_vs_underlying": {"systems_compared": npairs, "systems_with_differences": ndiff, "capped_systems_not_compared": ncapped, "configurations": len(table), "executions": agg["executions"], "states": agg["states"], "transitions": agg["transitions"]},
+        "states": agg["states"], "transitions": agg["transitions"], "traces_validated_against_impl": agg["complete_executions"],
+        "evaluations": agg["executions"], "distinct_nontrivial": npairs, "samples": samples[:2], "exhaustive": ncapped == 0,
+    }
+    return cov, viols
+
 def e1_part(prop, tier, seed, level="model_checking", profile="release"):
     binary = build_conc(profile)
     nsh = 64 if tier == "quick" else 128
@@ -188,6 +245,10 @@ def run_check(prop, tier, seed):
             c, v = e1_part(prop, tier, seed, **kw)
             assumptions += E1_ASSUMPTIONS
             rules.append(RULES["E1"])
+        elif eng == "E1pair":
+            c, v = e1_pair_part(prop, tier, seed)
+            assumptions += E1_ASSUMPTIONS
+            rules.append("E1 adaptor-vs-underlying leg: every closed system of the C13P family (for_each / fold with chunk sizes 1-3, buffered, chunk and single pulls, skips, length queries, zero-sized chunk pulls; 2 threads complete, 3 threads preemption-bounded in the thorough tier) is explored on cloned()/copied() iterators and on their underlying reference-yielding iterators; per system the sets of outcomes and violation classes must be equal. distinct_nontrivial = systems compared.")
         elif eng == "E1diff":
             c, v = e1_diff_part(prop, tier, seed)
             assumptions += E1_ASSUMPTIONS
@@ -227,7 +288,7 @@ CHECKS = {
     "C10": {"engines": [("E3", {"extra_classes": ("wrong-chunk-len", "empty-chunk", "wrong-element", "early-end", "len-mismatch", "foreach-count", "foreach-element", "revived", "after-skip", "wrong-begin")}), "E1"]},
     "C11": {"engines": ["E3", "E1"]},
     "C12": {"engines": ["E1", "E3"]},
-    "C13": {"engines": ["E3", "E1"]},
+    "C13": {"engines": ["E3", "E1", "E1pair"]},
     "C14": {"engines": ["E4", "E3"], "level": "exploration"},
     "C15": {"engines": ["E3", "E1"]},
     "C16": {"engines": [("E3", {"suite": "C16", "profiles": ("pdbg", "prel"), "all_tags": True}), ("E3", {"suite": "C16R", "profiles": ("pdbg", "prel"), "all_tags": True}), "E1"], "level": "exploration"},
